@@ -122,6 +122,11 @@ def gen_prios(rng, cfg, n):
             pool = leaves if rng.random() < 0.7 else ids
             keys = rng.sample(pool, min(k, len(pool)))
             mags = [1, 1, 2, 2, 3, 5, 7]
+            if rng.random() < 0.15:
+                # priorities are integers of any size an int64 holds (timestamps, prices in the smallest unit): neighbours far
+                # beyond 2^53 are different priorities
+                base = rng.choice([2 ** 53, 2 ** 60, 10 ** 18, 2 ** 62 - 5, 1_700_000_000_000_000_000])
+                mags = [base, base + 1, base + 2, base - 1, 3]
             d = {i: rng.choice(mags) * rng.choice([1, 1, -1]) for i in keys}
             if rng.random() < 0.15:
                 d["unknown-id"] = 4
